@@ -30,4 +30,4 @@ Separate Extraction Z.add Z.mul Z.div Z.modulo Z.opp Z.sub Z.of_nat Z.to_nat Z.o
   Hostile.collect_roots Hostile.process_sigpool Hostile.ff_check Hostile.sync_request Hostile.join_request
   Hostile.eager_sync Hostile.quote_str
   Recovery.db_of_log Recovery.bootstrap Recovery.bootstrap_cur Recovery.head_seq Recovery.node_log
-  HgReset.node_fast_forward HgReset.anchor_block_with_frame HgReset.reset_from HgReset.frame_cores HgReset.frame_shapeb.
+  HgReset.node_fast_forward HgReset.anchor_block_with_frame HgReset.reset_from HgReset.frame_cores HgReset.frame_shapeb HgReset.after_reset_premisesb.
